@@ -446,6 +446,48 @@ func runConfig(res *core.Result, pool *idPool, r *rand.Rand, full bool) {
 			ms.Drain(vmesh.FIFO, 20)
 		}
 	}
+	// A sender the victim knows but has no encryption keys with (node 4) fabricates traffic frames:
+	// plaintext inner packets that a policy rule would admit for the address it claims.
+	for k := 0; k < 6; k++ {
+		S := ms.Nodes[4]
+		proto, dport := uint8(6), uint16(80)
+		if len(rp.services) > 0 {
+			sv := rp.services[r.IntN(len(rp.services))]
+			proto, dport = sv.protos[r.IntN(len(sv.protos))], sv.port
+		}
+		claimed := S.ID.IP
+		via := 4
+		if k%2 == 1 {
+			// claim to be one of the routers with keys, still without a valid seal
+			claimed, via = ms.Nodes[1+k%3].ID.IP, 1+k%3
+		}
+		pkt := ipv6Packet(claimed, V.ID.IP, proto, uint16(25000+k), dport, core.RandBytes(r, 24))
+		f, err := S.Inst.BuilderV.NewFrameV1(claimed, V.ID.IP, frame.NetworkTraffic, nil, pkt, nil)
+		if err != nil {
+			break
+		}
+		f.SetSequenceNum(uint32(1000 + k))
+		fd, _ := f.FrameDataWithMargins(0, 0)
+		data := append([]byte(nil), fd...)
+		f.ReturnToPool()
+		if k%3 == 2 {
+			copy(data[len(data)-16:], core.RandBytes(r, 16))
+		}
+		p := ms.Inject(via, 0, data)
+		ms.Take(ms.Pending() - 1)
+		ms.Deliver(p)
+		if len(ms.Panics) > 0 {
+			res.Violate("handler-panic", fmt.Sprintf("fabricated traffic frame: %v [%s]", ms.Panics[0], cfgDesc), wit(map[string]any{"variant": "unsealed"}))
+			return
+		}
+		if got := drainTun(); len(got) > 0 {
+			res.Violate("forbidden-packet-delivered:never-sealed", fmt.Sprintf("a traffic frame that was never sealed (claimed sender %s, proto %d, port %d) was handed to the local interface [%s]", claimed, proto, dport, cfgDesc), wit(map[string]any{"variant": "unsealed", "proto": proto, "port": dport}))
+			return
+		}
+		res.Case(fmt.Sprintf("inbound:never-sealed:%d", k%3), true)
+		nIn++
+		ms.Drain(vmesh.FIFO, 20)
+	}
 	res.Count("inbound_frames", int64(nIn))
 
 	// (iii) outbound, on a fresh victim.
